@@ -20,6 +20,8 @@ RULES = {
              "and backward (never update)",
     "R04.4": "loss bookkeeping: per batch loss_epoch += sum(losses)/len(losses) with exactly one loss pushed per sample; per epoch "
              "train_loss.push(loss_epoch / len(batches)); loss_epoch is reset to 0 at the top of every epoch",
+    "R04.6": "the one step per batch reaches every parameter: Network::update / Feedback::update pass each weight/bias/kernel with its own "
+             "summed gradient and its own (layer, filter, bias) state slot to Optimizer::update (R03.3's call-site rule re-run)",
     "R04.5": "every sample of a batch is mapped exactly once (into_par_iter/par_iter . map . collect only; no filter/flat_map/skip)",
 }
 ASSUMPTIONS = ["rayon: par_chunks(n) partitions a slice into consecutive chunks of n (last may be shorter), in order; collect of an indexed "
@@ -243,7 +245,19 @@ def r4(ctx, L, lh):
                   "train-loss-pushed-before-batches", c.loc(fn, ps[0]), "pushed after the batch loop")
 
 
+def r6(ctx):
+    from . import c03
+    sub = type(ctx)(ctx.prop, ctx.facts)
+    sub.guard("R03.3", "call-sites", c03.r3_callsites, sub)
+    bad = [o for o in sub.obligations if o["status"] != "ok"]
+    for o in bad:
+        ctx.bad("R04.6", o["instance"], o["key"].split("/", 3)[-1], o["where"], o["detail"])
+    ctx.check("R04.6", "step-plumbing", not bad and len(sub.obligations) >= 10, "optimizer-step-plumbing-broken", "src/network.rs, src/feedback.rs",
+              "Network::update / Feedback::update hand every parameter tensor with its own gradient and its own (layer, filter, bias) slot to the optimizer (%d facts)" % len(sub.obligations))
+
+
 def run(ctx):
+    ctx.guard("R04.6", "step-plumbing", r6, ctx)
     L = ctx.guard("R04.1", "learn-structure", parts, ctx)
     if not L:
         return
